@@ -46,6 +46,9 @@ def cases(tier, seed):
         for layout in ("sparse", "dense") if tier == "thorough" else ("sparse",):
             out.append(dict(mode="model", res=res, rot=rot, layout=layout))
             out.append(dict(mode="model", res=res, rot=rot, layout=layout, numrec=2))
+    if tier == "quick":
+        out.append(dict(mode="model", res=RES[seed % 3], rot=ROT[seed % 2], layout="dense", numrec=2))
+        out.append(dict(mode="model", res=RES[(seed + 1) % 3], rot=ROT[seed % 2], layout="dense"))
     for blk in range(16):
         out.append(dict(mode="sampler", block=blk))
     return out
